@@ -518,7 +518,7 @@ def run_history(c, per_call_twin=True, stop_at_first=False):
   hess = c.get('fp_hess', True)
   fa, fb = fingerprint(reg, hess), fingerprint(twin, hess)
   if fa != fb:
-    bad = [x[:4] for x, y in zip(fa, fb) if x != y][:3]
+    bad = [x[:3] for x, y in zip(fa, fb) if x != y][:3]
     problems.append('after the history the behaviour differs from a freshly constructed twin at %s' % (bad,))
   for name, obj, s0 in reg.objs:
     if snap(obj) != s0:
